@@ -14,7 +14,7 @@ ID = "C02"
 LEVEL = "model_checking"
 LEVEL_TEXT = ("Explicit enumeration of all statement sequences of length 3 (thorough: 4) over an alphabet with one representative per "
               "size mechanism (explicit suffix; width inferred from a literal, a := constant, a backward/forward label, a name shadowed "
-              "by an inner label or `=` defined later/earlier; data lists; .ascii; .text; .incbin of 0/1/5 bytes; macro, loop, "
+              "by an inner label or `=` defined later/earlier; data lists; .ascii; .text; .incbin of 0/1/5/65541 bytes (the last one crosses two bank ends); macro, loop, "
               "conditional, block, named scope; *= and @= moves) x 2 start positions (window start, 3 bytes before a bank end) x "
               "LoROM/HiROM. A label and a unique 4-byte marker follow every statement; the marker's file offset in the real output, "
               "pulled back through the bus model, is where the next byte really went and must equal the label's value from "
@@ -35,22 +35,29 @@ DIRECT = ("", "", "")
 IMM = ("#", "", "")
 
 PLACES = {
-    "low_rom": dict(starts=[0x018000, 0x01FFFD], other=0x028100, rrom=0x03A000, rram=0x7E1000, table=0x05F000),
-    "high_rom": dict(starts=[0x410000, 0x41FFFD], other=0x428100, rrom=0x43A000, rram=0x7E1000, table=0x45F000),
+    "low_rom": dict(starts=[0x018000, 0x01FFFD], zero=0x008000, other=0x068100, rrom=0x03A000, rram=0x7E1000, table=0x05F000),
+    "high_rom": dict(starts=[0x410000, 0x41FFFD], zero=0x400000, other=0x468100, rrom=0x43A000, rram=0x7E1000, table=0x45F000),
 }
 TABLE = "10=a\n1112=ab\n20=b\n"
 KINDS = ["ins-explicit", "ins-lit1", "ins-lit2", "ins-lit3", "ins-const", "ins-imm-const", "ins-back", "ins-fwd",
          "sh-later-label", "sh-earlier-label", "sh-later-eq", "sh-earlier-eq", "sh-scope-label", "sh-macro-label",
          "db1", "dw2", "dl3", "ptr-back", "ascii", "text", "incbin0", "incbin1", "incbin5",
-         "macro-narrow", "macro-wide", "for", "if", "block", "nop", "org", "reloc-rom", "reloc-ram"]
+         "macro-narrow", "macro-wide", "for", "if", "block", "nop", "org", "org-zero", "reloc-rom", "reloc-ram"]
 VARIABLE = {"ins-lit1", "ins-lit2", "ins-lit3", "ins-const", "ins-imm-const", "ins-back", "sh-later-label", "sh-earlier-label",
-            "sh-later-eq", "sh-earlier-eq", "sh-scope-label", "sh-macro-label", "text", "incbin0", "incbin1", "incbin5",
+            "sh-later-eq", "sh-earlier-eq", "sh-scope-label", "sh-macro-label", "text", "incbin0", "incbin1", "incbin5", "incbin65541",
             "macro-narrow", "macro-wide", "for", "if"}
+
+
+# a statement that crosses two bank ends at once is expensive to assemble; it gets its own family: exactly one such
+# statement at each position of a 3-statement sequence, the other positions over BIG_OTHERS
+BIG = "incbin65541"
+BIG_OTHERS = ["ins-lit1", "ins-back", "db1", "dl3", "incbin5", "nop", "reloc-rom"]
 
 
 def bound(tier):
     d = 4 if tier == "thorough" else 3
-    return f"all sequences of {d} statements over {len(KINDS)} statement kinds x 2 start positions x LoROM/HiROM (+ all shorter sequences)"
+    return (f"all sequences of {d} statements over {len(KINDS)} statement kinds x 2 start positions x LoROM/HiROM (+ all shorter sequences); "
+            "147 sequences with one 65541-byte .incbin (crosses two bank ends) x 4 placements")
 
 
 def cases(tier, seed):
@@ -60,6 +67,7 @@ def cases(tier, seed):
             for n in range(1, d + 1):
                 if n == 1:
                     yield ("seq", busname, si, n, ())
+                    yield ("big", busname, si, 3, ())
                 else:
                     for k0 in range(len(KINDS)):
                         if n <= 3:
@@ -67,6 +75,15 @@ def cases(tier, seed):
                         else:
                             for k1 in range(len(KINDS)):
                                 yield ("seq", busname, si, n, (k0, k1))
+
+
+def big_sequences():
+    for pos in range(3):
+        for a in BIG_OTHERS:
+            for b in BIG_OTHERS:
+                seq = [a, b]
+                seq.insert(pos, BIG)
+                yield seq
 
 
 def describe(case, res):
@@ -135,6 +152,8 @@ def stmt(kind, i, pl):
         return [("ins", "nop", "", None, None)]
     if kind == "org":
         return [("org", N(pl["other"] + 0x100 * i))]
+    if kind == "org-zero":
+        return [("org", N(pl["zero"] + 0x100 * i))]
     if kind == "reloc-rom":
         return [("reloc", N(pl["rrom"] + 0x100 * i))]
     if kind == "reloc-ram":
@@ -160,7 +179,7 @@ def build(busname, si, kinds):
     for i, k in enumerate(kinds):
         prog += stmt(k, i, pl)
         if k.startswith("incbin"):
-            files[f"f{i}_{k[6:]}.bin"] = bytes(range(0x41, 0x41 + int(k[6:])))
+            files[f"f{i}_{k[6:]}.bin"] = bytes((0x41 + j % 26) for j in range(int(k[6:])))
         prog.append(("label", f"L{i}"))
         prog.append(marker(i))
     prog += [("label", "Lend"), ("data", "db", [N(0)]),
@@ -208,8 +227,8 @@ def check_program(busname, si, kinds, viol):
         # most recent top-level move at or before statement i
         base_run, base_off = start, bus.phys(start)
         for m in range(i, -1, -1):
-            if kinds[m] == "org":
-                base_run = pl["other"] + 0x100 * m
+            if kinds[m] in ("org", "org-zero"):
+                base_run = (pl["other"] if kinds[m] == "org" else pl["zero"]) + 0x100 * m
                 base_off = bus.phys(base_run)
                 break
             if kinds[m] in ("reloc-rom", "reloc-ram"):
@@ -242,8 +261,11 @@ def run_case(case):
     outcomes = set()
     evals = nt = states = 0
     example = None
-    for tail in itertools.product(range(len(KINDS)), repeat=n - len(pre)):
-        kinds = [KINDS[k] for k in pre + tail]
+    if case[0] == "big":
+        seqs = big_sequences()
+    else:
+        seqs = ([KINDS[k] for k in pre + tail] for tail in itertools.product(range(len(KINDS)), repeat=n - len(pre)))
+    for kinds in seqs:
         t, tag = check_program(busname, si, kinds, viol)
         evals += 1
         states += 1
